@@ -41,9 +41,9 @@ def relative_split_regex(model, normalize):
     if normalize:
         rel = [normalize_unicode(x) for x in rel]
     strs = sorted([regex.sub(r"[\(\)]", "", k) for k in rel], key=len, reverse=True)
-    if not strs:
+    if not strs and model.ex.relsplit_guarded:
         return None
-    body = "|".join(strs)
+    body = "|".join(strs)      # empty when the locale has no counted pattern and the code does not guard the split
     pat = "({})".format(body) if model.no_word_spacing else "(?<=(?:\\A|\\W|_))({})(?=(?:\\Z|\\W|_))".format(body)
     try:
         return regex.compile(pat, regex.U | regex.I)
@@ -117,8 +117,11 @@ def analyse_locale(args):
                         out.append((locale, normalize, k, w, "S-B", "the rewritten name %r is a key meaning %r" % (t, d[t])))
                     elif split_rx is not None:
                         mm = split_rx.search(t)
+                        torn = next((x for x in split_rx.finditer(t) if not x.group(0) and 0 < x.start() < len(t)), None)
                         if mm and mm.span() != (0, len(t)) and mm.group(0):
                             out.append((locale, normalize, k, w, "S-C", "counted pattern matches the part %r of %r" % (mm.group(0), t)))
+                        elif torn is not None:
+                            out.append((locale, normalize, k, w, "S-C", "the (empty) relative split expression tears %r apart at position %d" % (t, torn.start())))
                         else:
                             out.append((locale, normalize, k, w, "ok", ""))
                     else:
